@@ -77,29 +77,40 @@ impl<'a, P: ?Sized + PathImpl> PathMutImpl<'a, P> {
 	}
 
 	pub fn push(&mut self, segment: &P::Segment) {
-		// Disambiguate if the path is empty and one of the following is true:
-		// - `segment` looks like a scheme and path is a the start.
-		// - `segment` is empty, path is absolute and following an authority.
-		// - `segment` is empty, path is relative.
-		let disambiguate = self.is_empty()
-			&& ((self.start == 0 && segment.looks_like_scheme()) || segment.is_empty());
+		if self.is_empty() {
+			if self.start > 0 && self.follows_authority && self.start == self.end {
+				// VALIDITY: When an authority is present, a non-empty path
+				//           must be absolute.
+				replace(self.buffer, self.end..self.end, b"/");
+				self.end += 1;
+			}
 
-		if disambiguate {
-			let start = self.first_segment_offset();
-			let len = 2 + segment.len();
-			allocate_range(self.buffer, start..start, len);
-			self.end += len;
-			let offset = start + 2;
-			self.buffer[start..offset].copy_from_slice(b"./");
-			self.buffer[offset..self.end].copy_from_slice(segment.as_bytes());
-		} else if self.is_empty() {
-			replace(self.buffer, self.end..self.end, segment.as_bytes());
-			self.end += segment.len();
+			// Disambiguate if one of the following is true:
+			// - `segment` contains a `:`, the path is relative and at the
+			//   start (it would be confused with a scheme).
+			// - `segment` is empty (adding a `/` would either make a relative
+			//   path absolute, or be dropped/confused with an authority).
+			let disambiguate = segment.is_empty()
+				|| (self.start == 0 && self.is_relative() && segment.as_bytes().contains(&b':'));
+
+			if disambiguate {
+				let start = self.first_segment_offset();
+				let len = 2 + segment.len();
+				allocate_range(self.buffer, start..start, len);
+				self.end += len;
+				let offset = start + 2;
+				self.buffer[start..offset].copy_from_slice(b"./");
+				self.buffer[offset..self.end].copy_from_slice(segment.as_bytes());
+			} else {
+				replace(self.buffer, self.end..self.end, segment.as_bytes());
+				self.end += segment.len();
+			}
 		} else {
-			let bytes = self.as_bytes();
 			let mut start_offset = 0usize;
-			if (self.follows_authority || bytes.len() > 3) && bytes.ends_with(b"/./") {
-				// we can remove the `./` here.
+			if self.follows_authority && self.as_bytes() == b"/./" {
+				// The path is a lone empty segment protected by a `.`
+				// segment. We can remove the `./` here: `/./` + `foo`
+				// becomes `//foo`.
 				start_offset = 2;
 			};
 
@@ -108,7 +119,7 @@ impl<'a, P: ?Sized + PathImpl> PathMutImpl<'a, P> {
 			allocate_range(self.buffer, start..self.end, len);
 
 			self.buffer[start] = b'/';
-			self.end += len - start_offset;
+			self.end = self.end + len - start_offset;
 			let segment_offset = start + 1;
 			self.buffer[segment_offset..self.end].copy_from_slice(segment.as_bytes());
 		}
